@@ -252,13 +252,17 @@ V("C19", "open-before-download", "F", "R1", DLP,
   "        text = download_license(spdx_identifier)\n        with destination.open(\"w\", encoding=\"utf-8\") as fp:\n            fp.write(header)\n            fp.write(text)",
   "        with destination.open(\"w\", encoding=\"utf-8\") as fp:\n            text = download_license(spdx_identifier)\n            fp.write(header)\n            fp.write(text)")
 V("C19", "licenseref-downloads", "F", "R1", DLP, "        else:\n            destination.touch()\n", "        else:\n            destination.write_text(download_license(spdx_identifier))\n")
+V("C19", "dest-hack-without-vcs-test", "F", "R3", DLP, '        and root.name == "LICENSES"\n        and isinstance(project.vcs_strategy, VCSStrategyNone)\n', '        and root.name == "LICENSES"\n')
+V("C19", "dest-hack-inverted", "F", "R3", DLP, '        and root.name == "LICENSES"\n', '        and root.name != "LICENSES"\n')
+V("C19", "licdir-root-ignored", "F", "R3", R + "_util.py", "    if root:\n        licenses_path = Path(root) / \"LICENSES\"\n    elif cwd.name == \"LICENSES\":", "    if cwd.name == \"LICENSES\":")
+V("C19", "dest-fstring-name", "S", "", DLP, 'return licenses_path / "".join((spdx_identifier, ".txt"))', 'return licenses_path / f"{spdx_identifier}.txt"')
 V("C19", "break-on-failure", "F", "R2", DLC, "        except URLError:\n            _could_not_download(lic)\n            return_code = 1\n", "        except URLError:\n            _could_not_download(lic)\n            return_code = 1\n            break\n")
 V("C19", "failure-exit-0", "F", "R2", DLC, "        except FileExistsError as err:\n            _already_exists(err.filename)\n            return_code = 1\n", "        except FileExistsError as err:\n            _already_exists(err.filename)\n")
 V("C19", "plus-not-stripped", "F", "R2", DLC, "    licenses = {_strip_plus_from_identifier(lic) for lic in licenses}\n", "    licenses = set(licenses)\n")
 V("C19", "exit-0-always", "F", "R2", DLC, "    sys.exit(return_code)", "    sys.exit(0)")
 V("C19", "status-ignored", "F", "R1", DLP, "        if response.getcode() == 200:\n            return response.read().decode(\"utf-8\")\n    raise URLError(\"Status code was not 200\")", "        return response.read().decode(\"utf-8\")")
 V("C19", "all-takes-unused", "F", "R2", DLC, "        licenses = report.missing_licenses.keys()", "        licenses = report.unused_licenses")
-V("C19", "destination-without-txt", "F", "R2", DLP, '    return licenses_path / "".join((spdx_identifier, ".txt"))', '    return licenses_path / spdx_identifier')
+V("C19", "destination-without-txt", "F", "R3", DLP, '    return licenses_path / "".join((spdx_identifier, ".txt"))', '    return licenses_path / spdx_identifier')
 V("C19", "second-network-caller", "F", "R1", R + "_util.py", "def cleandoc_nl(text: str) -> str:", "def _ping() -> None:\n    import urllib.request\n    urllib.request.urlopen('https://spdx.org')\n\n\ndef cleandoc_nl(text: str) -> str:")
 
 # ----------------------------------------------------------------- C11
@@ -406,6 +410,20 @@ for _p in ("C14", "C04"):
     S2(_p, "rename-found-local", GLP, r"(?<![.\w])found\b", "relevant")
 S2("C18", "rename-out", RPT, r"\bout\b(?!=)", "buf")
 S2("C01", "rename-project_report", RPT, r"\bproject_report\b", "prep")
+V("C17", "tables-reversed", "F", "R2", R + "convert_dep5.py", "        annotations.append(paragraph_result)\n    return annotations\n", "        annotations.append(paragraph_result)\n    annotations.reverse()\n    return annotations\n")
+V("C17", "tables-sorted-in-document", "F", "R2", R + "convert_dep5.py", "    result[\"annotations\"] = annotations\n", "    annotations = sorted(annotations, key=lambda a: str(a[\"path\"]))\n    result[\"annotations\"] = annotations\n")
+V("C17", "tables-inserted-front", "F", "R2", R + "convert_dep5.py", "        annotations.append(paragraph_result)\n", "        annotations.insert(0, paragraph_result)\n")
+S2("C17", "rename-annotations-acc", R + "convert_dep5.py", r"(?<![\"\w])annotations\b(?![\"(])", "tables")
+V("C14", "module-cache-in-extract", "F", "R6", EXP, "def extract_reuse_info(text: str) -> ReuseInfo:\n", "_SEEN: dict = {}\n\n\ndef extract_reuse_info(text: str) -> ReuseInfo:\n    _SEEN[text[:20]] = True\n")
+V("C14", "global-results-consumed", "F", "R6", PRJ, "        result.extend(global_results[PrecedenceType.OVERRIDE])\n", "        result.extend(global_results[PrecedenceType.OVERRIDE])\n        self.license_map.setdefault(str(path), {})\n")
+VARIANTS.append({"prop": "C14", "id": "C14:benign2-accumulator-helper", "expect": "S", "rule": "", "edits": [
+    {"file": PRJ, "old": "        if file_result.contains_info():\n            result.append(file_result)\n",
+     "new": "        _add_if_info(result, file_result)\n"},
+    {"file": PRJ, "old": "class Project:\n", "new": "def _add_if_info(acc, info):\n    if info.contains_info():\n        acc.append(info)\n\n\nclass Project:\n"}]})
+V2("C20", "undated-line-bypasses-merge", "F", "R3", [(CPP, "            if match is not None:\n                copyright_in.append(", "            if match is not None and match.groupdict()[\"year\"] is None:\n                early.add(line)\n                break\n            if match is not None:\n                copyright_in.append("),
+   (CPP, "    copyright_in = []\n", "    copyright_in = []\n    early: set[str] = set()\n"), (CPP, "    return copyright_out\n", "    return copyright_out | early\n")])
+V("C20", "undated-line-dropped", "F", "R3", CPP, "            if match is not None:\n                copyright_in.append(", "            if match is not None and match.groupdict()[\"year\"] is None:\n                break\n            if match is not None:\n                copyright_in.append(")
+S2("C19", "rename-root-local", DLP, r"(?<![.\w])root\b(?!=)", "base")
 S2("C19", "rename-return_code", R + "cli/download.py", r"\breturn_code\b", "rc")
 S2("C11", "rename-result", CAP, r"(?<![.\w])result\b", "failures")
 S2("C06", "rename-identifiers", RPT, r"\bidentifiers\b", "ids")
@@ -419,3 +437,49 @@ V("C07", "special-ending-eats-later", "F", "R7", EXP, "                        r
 V("C02", "special-ending-eats-later", "F", "R8", EXP, "                        r\"\\]\\s*::\",\n", "                        r\"\\]\\s*::\",\n                        r\"-later\",\n")
 V("C07", "style-end-is-id-suffix", "F", "R7", R + "comment.py", '    MULTI_LINE = MultiLineSegments("{#", "", "#}")', '    MULTI_LINE = MultiLineSegments("{#", "", "-only")')
 V("C07", "tex-marker-in-copyright-prefix", "F", "R7", R + "comment.py", '    SHORTHAND = "semicolon"\n\n    SINGLE_LINE = ";"', '    SHORTHAND = "semicolon"\n\n    SINGLE_LINE = "Copyright"')
+
+# ----------------------------------------------------------------- benign structural refactors (must stay silent)
+def B(prop, vid, file, old, new):
+    VARIANTS.append({"prop": prop, "id": f"{prop}:benign2-{vid}", "expect": "S", "rule": "", "edits": [{"file": file, "old": old, "new": new}]})
+
+
+VARIANTS.append({"prop": "C01", "id": "C01:benign2-verdict-list", "expect": "S", "rule": "", "edits": [
+    {"file": RPT, "old": "        self._is_compliant = not any(\n            (\n                self.missing_licenses,",
+     "new": "        self._is_compliant = not any(\n            [\n                self.missing_licenses,"},
+    {"file": RPT, "old": "                self.read_errors,\n            )\n        )\n\n        return self._is_compliant", "new": "                self.read_errors,\n            ]\n        )\n\n        return self._is_compliant"}]})
+B("C13", "len-guard", LNT, "        if report.bad_licenses:\n", "        if len(report.bad_licenses) > 0:\n")
+B("C03", "any-instead-of-loop", R + "covered_files.py",
+  "        for pattern in _IGNORE_DIR_PATTERNS:\n            if pattern.match(name):\n                return True\n",
+  "        if any(pattern.match(name) for pattern in _IGNORE_DIR_PATTERNS):\n            return True\n")
+B("C04", "plus-equals-instead-of-extend", PRJ, "        result.extend(global_results[PrecedenceType.AGGREGATE])\n", "        result += global_results[PrecedenceType.AGGREGATE]\n")
+B("C12", "find-instead-of-in", EXP, "    if REUSE_IGNORE_START in text:\n        ignore_start = text.index(REUSE_IGNORE_START)", "    if text.find(REUSE_IGNORE_START) != -1:\n        ignore_start = text.index(REUSE_IGNORE_START)")
+B("C01", "exit-via-local", R + "cli/lint.py", "    sys.exit(0 if report.is_compliant else 1)", "    exit_code = 0 if report.is_compliant else 1\n    sys.exit(exit_code)")
+B("C04", "slice-reverse", GLP, "        for item in reversed(self.annotations):", "        for item in self.annotations[::-1]:")
+B("C20", "any-search", CPP, "    for pattern in _COPYRIGHT_PATTERNS:\n        match = pattern.search(statement)\n        if match is not None:\n            return statement\n",
+  "    if any(pattern.search(statement) is not None for pattern in _COPYRIGHT_PATTERNS):\n        return statement\n")
+B("C06", "ids-as-literal", RPT,
+  "                    identifiers = {identifier}\n                    if (\n                        plus_identifier := _strip_plus_from_identifier(\n                            identifier\n                        )\n                    ) != identifier:\n                        identifiers.add(plus_identifier)\n",
+  "                    identifiers = {identifier, _strip_plus_from_identifier(identifier)}\n")
+B("C19", "branches-swapped", R + "download.py",
+  "    if _LICENSEREF_PATTERN.match(spdx_identifier):\n        if source:\n            source = Path(source)\n            if source.is_dir():\n                source = source / f\"{spdx_identifier}.txt\"\n            if not source.exists():\n                raise FileNotFoundError(\n                    errno.ENOENT, os.strerror(errno.ENOENT), str(source)\n                )\n            shutil.copyfile(source, destination)\n        else:\n            destination.touch()\n    else:\n        text = download_license(spdx_identifier)\n        with destination.open(\"w\", encoding=\"utf-8\") as fp:\n            fp.write(header)\n            fp.write(text)",
+  "    if not _LICENSEREF_PATTERN.match(spdx_identifier):\n        text = download_license(spdx_identifier)\n        with destination.open(\"w\", encoding=\"utf-8\") as fp:\n            fp.write(header)\n            fp.write(text)\n    elif source:\n        source = Path(source)\n        if source.is_dir():\n            source = source / f\"{spdx_identifier}.txt\"\n        if not source.exists():\n            raise FileNotFoundError(\n                errno.ENOENT, os.strerror(errno.ENOENT), str(source)\n            )\n        shutil.copyfile(source, destination)\n    else:\n        destination.touch()")
+B("C11", "early-continue-style", ANP, "    if comment_style is None:\n        if skip_unrecognised:", "    if comment_style is None:\n        if skip_unrecognised is True or skip_unrecognised:")
+B("C08", "separator-ifexp", HDP,
+  "        if not has_existing_header and not after.startswith(\"\\n\"):\n            separator = \"\\n\"\n        else:\n            separator = \"\"\n",
+  "        separator = \"\\n\" if (not has_existing_header and not after.startswith(\"\\n\")) else \"\"\n")
+B("C09", "union-operator", HDP, "            spdx_copyrights = reuse_info.copyright_lines.union(\n                existing_spdx.copyright_lines\n            )", "            spdx_copyrights = reuse_info.copyright_lines | existing_spdx.copyright_lines")
+B("C18", "fstring-split", RPT, '            out.write(f"SPDXID: {report.spdx_id}\\n")\n', '            out.write("SPDXID: " + f"{report.spdx_id}\\n")\n')
+B("C16", "isinstance-order", GLP, "        if not isinstance(annotation_dicts, list) or not all(", "        if (not isinstance(annotation_dicts, list)) or not all(")
+VARIANTS.append({"prop": "C15", "id": "C15:benign2-helper-for-write", "expect": "S", "rule": "", "edits": [
+    {"file": ANP, "old": "        with open(path, \"w\", encoding=\"utf-8\", newline=line_ending) as fp:\n            fp.write(bom + output)\n",
+     "new": "        _write_back(path, bom + output, line_ending)\n"},
+    {"file": ANP, "old": "def add_header_to_file(\n",
+     "new": "def _write_back(target, data, eol):\n    with open(target, \"w\", encoding=\"utf-8\", newline=eol) as fp:\n        fp.write(data)\n\n\ndef add_header_to_file(\n"}]})
+VARIANTS.append({"prop": "C15", "id": "C15:helper-for-write-other-target", "expect": "F", "rule": "R1", "edits": [
+    {"file": ANP, "old": "        with open(path, \"w\", encoding=\"utf-8\", newline=line_ending) as fp:\n            fp.write(bom + output)\n",
+     "new": "        _write_back(path, bom + output, line_ending)\n        _write_back(str(path) + \".orig\", text, line_ending)\n"},
+    {"file": ANP, "old": "def add_header_to_file(\n",
+     "new": "def _write_back(target, data, eol):\n    with open(target, \"w\", encoding=\"utf-8\", newline=eol) as fp:\n        fp.write(data)\n\n\ndef add_header_to_file(\n"}]})
+for _p in ("C08", "C10"):
+    B(_p, "rest-local-in-finder", HDP, "            comment = style.comment_at_first_character(text[index:])\n", "            rest = text[index:]\n            comment = style.comment_at_first_character(rest)\n")
+    V(_p, "finder-window-bounded", "F", "R4", HDP, "            comment = style.comment_at_first_character(text[index:])\n", "            comment = style.comment_at_first_character(text[index : index + 4096])\n")
